@@ -304,16 +304,19 @@ type avpLoc struct {
 	off       int // offset of the AVP in the message
 	container int // end offset of the enclosing container
 	length    int
+	hl        int // header length (8, or 12 with the V bit)
 }
 
 func locate(body []byte, base, end int, isGroup func(uint32, uint32, bool) bool, out *[]avpLoc) {
 	for off := 0; off+8 <= len(body); {
 		l := int(body[off+5])<<16 | int(body[off+6])<<8 | int(body[off+7])
-		*out = append(*out, avpLoc{off: base + off, container: end, length: l})
 		hl := 8
-		var vendor uint32
 		if body[off+4]&0x80 != 0 {
 			hl = 12
+		}
+		*out = append(*out, avpLoc{off: base + off, container: end, length: l, hl: hl})
+		var vendor uint32
+		if hl == 12 {
 			if off+12 <= len(body) {
 				vendor = uint32(body[off+8])<<24 | uint32(body[off+9])<<16 | uint32(body[off+10])<<8 | uint32(body[off+11])
 			}
@@ -371,6 +374,15 @@ func (d deviation) apply(w []byte) []byte {
 		o := append([]byte{}, w...)
 		o[d.off], o[d.off+1], o[d.off+2], o[d.off+3] = byte(d.val>>24), byte(d.val>>16), byte(d.val>>8), byte(d.val)
 		return o
+	case "fillff":
+		if d.off+d.val > len(w) || d.val <= 0 {
+			return nil
+		}
+		o := append([]byte{}, w...)
+		for i := 0; i < d.val; i++ {
+			o[d.off+i] = 0xff
+		}
+		return o
 	case "set8":
 		if d.off >= len(w) {
 			return nil
@@ -414,6 +426,15 @@ func deviations(c *Config, w []byte) []deviation {
 			ds = append(ds, deviation{"flip", l.off + 4, 1 << uint(b)})
 		}
 		ds = append(ds, deviation{"set32", l.off, int(c.A.Undef[0])}, deviation{"set32", l.off, 0}, deviation{"set32", l.off, 0x7fffffff})
+		// the value itself: the first word of the payload at the ends of the signed and unsigned
+		// 32-bit ranges (a decoded number must never be trusted as an index, a count or a size by a
+		// later inspection), and a payload of 0xff octets throughout
+		if l.length >= l.hl+4 {
+			for _, v := range []int{0x80000000, 0xffffffff, 0x7fffffff, 0, 0x80000001} {
+				ds = append(ds, deviation{"set32", l.off + l.hl, v})
+			}
+			ds = append(ds, deviation{"fillff", l.off + l.hl, l.length - l.hl})
+		}
 	}
 	for o := 0; o < len(w); o++ {
 		ds = append(ds, deviation{"trunc", o, 0})
@@ -716,7 +737,7 @@ func c03Enum(ctx *ev.Ctx, fn func(*Config, C03Case)) string {
 			emit(c, "message", fmt.Sprintf("grouped AVP nested in itself %d deep", depth), nestedMessage(c, depth))
 		}
 	}
-	return "(0) every stream of <=3 pieces over {messages with 8 / 600 / 2036 / 5000-byte bodies, a bare header claiming 2056 bytes, headers claiming 620 / 3000 bytes followed by 10 / 1500} read message by message with the exported diam.MessageBufferLength set to one of {1024, 4096, 512} before each read; (i) every byte string of length <=1 and a lattice of length 2 (thorough: all) on every entry point; 20-byte headers with every declared length 0..2100 and 2^k-1, 2^k, 2^k+1 up to 2^24-1 x 4 commands x R bit, header only and with the body supplied; (ii) AVP shapes code {one per type, vendor variants, groups, undefined} x flags {0,0x20,0x40,0x80,0xC0,0xFF} x declared length 0..44 x bytes available 0..44 (quick: the neighbourhood of declared, multiples of 8) as DecodeAVP input, as message body and as group payload; (iii) every datatype decoder on payloads of 0..40 bytes x 4 fill patterns (address families 1, 257, 65535, 32897), the rendered text bounded by 32 x supplied + 256 bytes; (iv) every single structured corruption (each length field to 16 boundary values, every flag bit, code to undefined/0/2^31-1, truncation at every offset with and without a consistent header) of well-formed seeds covering every type and nesting, and every pair of corruptions on small seeds (thorough: triples on one seed); (v) a grouped AVP nested 1..1000 deep in-process with every inspection (String/PrettyDump are cubic in depth), 3000 deep with re-serialisation measured, and 6*10^4 (thorough) and 2*10^6 deep in child processes under an 8 GiB address-space cap. (vii) 1..7 stray octets (0x00 / 0xff) behind the last complete AVP of messages with 8..70000-byte values, i.e. bodies below, around and above the 1 KiB pooled read buffer; (vi) text values spelled in formatting directives: every sequence of <=4 tokens over 16 tokens of fmt syntax (%, verbs, [n], *, widths up to 999999, flags) in a UTF8String and of <=3 in a DiameterIdentity, OctetString, DiameterURI and Session-Id, decoded and rendered: String / PrettyDump show the text as received and stay within 32 x supplied + 1024 bytes. Message input of the configurations built on dict.Default is also decoded with the dictionary argument omitted (nil) and inspected the same way. On everything that decodes: String, PrettyDump, Serialize, WriteTo, Unmarshal into CER/CEA/DWR/DWA, a generic struct, a struct of fixed-size byte arrays and a struct that maps every Grouped AVP of the configuration's alphabet onto a nested struct / pointer / slice and every plain leaf onto a slice of a Go holder type (seeds repeat one code three times, once under a foreign vendor id), once into a fresh value and once into a value reused across all inputs of the configuration (slices non-nil, capacities as the earlier inputs left them), FindAVP/FindAVPs/FindAVPsWithPath by code and name. Distinct by (configuration, entry point, bytes)."
+	return "(0) every stream of <=3 pieces over {messages with 8 / 600 / 2036 / 5000-byte bodies, a bare header claiming 2056 bytes, headers claiming 620 / 3000 bytes followed by 10 / 1500} read message by message with the exported diam.MessageBufferLength set to one of {1024, 4096, 512} before each read; (i) every byte string of length <=1 and a lattice of length 2 (thorough: all) on every entry point; 20-byte headers with every declared length 0..2100 and 2^k-1, 2^k, 2^k+1 up to 2^24-1 x 4 commands x R bit, header only and with the body supplied; (ii) AVP shapes code {one per type, vendor variants, groups, undefined} x flags {0,0x20,0x40,0x80,0xC0,0xFF} x declared length 0..44 x bytes available 0..44 (quick: the neighbourhood of declared, multiples of 8) as DecodeAVP input, as message body and as group payload; (iii) every datatype decoder on payloads of 0..40 bytes x 4 fill patterns (address families 1, 257, 65535, 32897), the rendered text bounded by 32 x supplied + 256 bytes; (iv) every single structured corruption (each length field to 16 boundary values, every flag bit, code to undefined/0/2^31-1, the first word of every AVP payload to 0, 2^31-1, 2^31, 2^31+1 and 2^32-1 and the whole payload to 0xff octets, truncation at every offset with and without a consistent header) of well-formed seeds covering every type and nesting, and every pair of corruptions on small seeds (thorough: triples on one seed); (v) a grouped AVP nested 1..1000 deep in-process with every inspection (String/PrettyDump are cubic in depth), 3000 deep with re-serialisation measured, and 6*10^4 (thorough) and 2*10^6 deep in child processes under an 8 GiB address-space cap. (vii) 1..7 stray octets (0x00 / 0xff) behind the last complete AVP of messages with 8..70000-byte values, i.e. bodies below, around and above the 1 KiB pooled read buffer; (vi) text values spelled in formatting directives: every sequence of <=4 tokens over 16 tokens of fmt syntax (%, verbs, [n], *, widths up to 999999, flags) in a UTF8String and of <=3 in a DiameterIdentity, OctetString, DiameterURI and Session-Id, decoded and rendered: String / PrettyDump show the text as received and stay within 32 x supplied + 1024 bytes. Message input of the configurations built on dict.Default is also decoded with the dictionary argument omitted (nil) and inspected the same way. On everything that decodes: String, PrettyDump, Serialize, WriteTo, Unmarshal into CER/CEA/DWR/DWA, a generic struct, a struct of fixed-size byte arrays and a struct that maps every Grouped AVP of the configuration's alphabet onto a nested struct / pointer / slice and every plain leaf onto a slice of a Go holder type (seeds repeat one code three times, once under a foreign vendor id), once into a fresh value and once into a value reused across all inputs of the configuration (slices non-nil, capacities as the earlier inputs left them), FindAVP/FindAVPs/FindAVPsWithPath by code and name. Distinct by (configuration, entry point, bytes)."
 }
 
 func nestedMessage(c *Config, depth int) []byte {
